@@ -189,6 +189,29 @@ defprog! {
    }
 }
 
+
+// a lattice read by the THIRD body clause of the rule whose head writes the same lattice: in
+// parallel mode clauses from the third on run sequentially inside the closure of the first two,
+// so the row lock taken for the read and the row lock taken for the head update meet in one
+// worker; on a cyclic graph two workers do this crosswise in the same iteration
+defprog! {
+   name: lattice_tail_clause;
+   timeouts: yes;
+   positive: true;
+   tags: ["c02", "c05", "c13", "c14", "c20", "graph", "lattice"];
+   rels: {
+      relation edge(u32, u32, u32) [input];
+      lattice dist(u32, Dual<u32>) [];
+      relation near(u32) [];
+   }
+   gens: [("dense", gens::dense), ("random", gens::random), ("diamond", gens::diamond), ("closed", gens::closed)];
+   rules: {
+      dist(x, Dual(20 + (x * 7) % 11)) <-- edge(x, _, _);
+      dist(y, Dual(d + w)) <-- edge(_, x, _), edge(x, y, w), dist(x, ?Dual(d));
+      near(x) <-- edge(x, _, _), edge(_, x, _), dist(x, ?Dual(d)), if *d < 12;
+   }
+}
+
 pub fn all() -> Vec<ProgramDef> {
-   vec![shortest_path::def(), longest_bounded::def(), const_prop::def(), reach_sets::def(), lat_noindex::def(), write_only_heads::def(), lattice_then_walk::def(), lattice_bound_value::def()]
+   vec![shortest_path::def(), longest_bounded::def(), const_prop::def(), reach_sets::def(), lat_noindex::def(), write_only_heads::def(), lattice_then_walk::def(), lattice_bound_value::def(), lattice_tail_clause::def()]
 }
